@@ -435,7 +435,8 @@ func UnmarshalError(r xml.TokenReader) (Error, error) {
 	iter := xmlstream.NewIter(r)
 	for iter.Next() {
 		start, p := iter.Current()
-		if start.Name.Local != "error" {
+		// Character data, comments and the like have no start element.
+		if start == nil || start.Name.Local != "error" {
 			continue
 		}
 
